@@ -255,3 +255,33 @@ func verifH_C05_object_presence() {
 	}
 	verifReach("end")
 }
+
+//verif:harness id=C05 tier=quick,thorough witness=end bounds="deepObject with declared and undeclared members of different types: schema {n: integer, additionalProperties: {type: string}} (or boolean / string the other way round); p[n]=<digit>&p[zz]=<digit>: the declared member is typed by its own schema, the undeclared one by the additionalProperties schema"
+func verifH_C05_deepobject_mixed() {
+	verifMapOrder()
+	declT := []string{"integer", "boolean", "string"}[verifChoose("declared", 3)]
+	apT := []string{"string", "integer"}[verifChoose("additional", 2)]
+	obj := &openapi3.Schema{Type: &openapi3.Types{"object"}, Properties: openapi3.Schemas{"n": verifPrimSchema(declT)}}
+	obj.AdditionalProperties.Schema = verifPrimSchema(apT)
+	d := verifNondetByteIn("d", "0123456789")
+	nText := string([]byte{d})
+	if declT == "boolean" {
+		nText = "true"
+	}
+	zText := string([]byte{verifNondetByteIn("z", "0123456789")})
+	q := url.Values{"p[n]": []string{nText}, "p[zz]": []string{zText}}
+	explode := true
+	param := &openapi3.Parameter{Name: "p", In: "query", Style: "deepObject", Explode: &explode, Schema: &openapi3.SchemaRef{Value: obj}}
+	input := &RequestValidationInput{QueryParams: q, Request: &http.Request{Header: http.Header{}, URL: &url.URL{}}}
+	got, found, err := decodeStyledParameter(param, input)
+	verifAssert(err == nil && found, "C05 deepObject mixed: the parameter decodes")
+	if err != nil {
+		return
+	}
+	m, ok := got.(map[string]any)
+	wantN, _ := verifTyped(nText, declT)
+	wantZ, _ := verifTyped(zText, apT)
+	verifAssert(ok && len(m) == 2 && verifSame(m["n"], wantN), "C05 deepObject mixed: the declared member is typed by its own schema")
+	verifAssert(ok && verifSame(m["zz"], wantZ), "C05 deepObject mixed: the undeclared member is typed by the additionalProperties schema")
+	verifReach("end")
+}
